@@ -12,6 +12,7 @@ PROPS = {
         "units": [
             {"pkg": "./mainpkg", "run": "^TestC18", "shards": 4, "shards_thorough": 8, "timeout": 400},
             {"pkg": "./sysbin", "run": "^TestC18", "shards": 1, "shards_thorough": 2, "timeout": 300},
+            {"pkg": "./c18exit", "shards": 1, "shards_thorough": 2, "timeout": 300},
         ],
         "rule": ("rapid-generated shutdown scenarios against the exported listener functions: any non-empty subset of {http, tcp, tcp+sni, grpc, https+tcp+sni} registered through ListenAndServeHTTP/TCP/GRPC/HTTPSTCPSNI "
                  "on free loopback ports (the gRPC one with main.go's newGrpcProxy options), wait W in [200 ms, 1.5 s], 0-3 pieces of in-flight work per listener (HTTP and HTTPS requests, TCP and SNI tunnels incl. SNI "
@@ -397,4 +398,29 @@ _LATER = {
     "C20": "Also: log.access.format taken through config.Load from command line, plain and FABIO_ environment (quotes and non-ASCII literal text kept); concurrent logging and UUID rendering under the race detector; failing log targets.",
 }
 for _k, _v in _LATER.items():
+    PROPS[_k]["rule"] += " " + _v
+
+# Forms added after the sixth set (DESIGN.md section 11.1, round 6)
+_ROUND6 = {
+    "C01": "Also: the agent refuses registrations while register= aliases come and go; an update loop that stops following the registry for 48 s is a violation (not a time-out); the operator adds the https form of an announced target (with the instance's tags) and may delete the http one; instances re-register in place on another port or address.",
+    "C02": "Also: a rejected text stays rejected when it is delivered again with a valid line appended (the verdict on a line does not depend on earlier builds).",
+    "C03": "Also: route paths written with empty, '.' and '..' segments and trailing slashes; the update-loop histories (active table = last good table, lookups agree) once more.",
+    "C04": "Also: the table is replaced while the listener is up (shares of the new table on every listener kind incl. tcp and tcp+sni); Consul KV outage with an operator's 'route weight' in force.",
+    "C05": "Also: the custom backend's JSON definitions (add, del in its three forms, weight) against the same commands as text.",
+    "C06": "Also: tables with host patterns that are no valid globs in the cache-size workload; htpasswd file histories (a decision does not depend on what earlier requests presented).",
+    "C07": "Also: option values with upper-case letters (strip=/Files, host=Backend.Internal); no-route after every route has been withdrawn (SetTable with an empty table).",
+    "C08": "Also: routes with an access rule that admits the peer (forged non-IP X-Forwarded-For elements included); 101 answers to upgrades to protocols other than websocket carry the response headers.",
+    "C09": "Also: targets built from the route language, incl. routes marked TCP by proto=tcp on a destination with another scheme, with pxyproto=true.",
+    "C10": "Also: peers that go away after 0-12 bytes (or any prefix) of their hello through SNIProxy.ServeTCP: no panic, nothing routed.",
+    "C11": "Also: http sources whose list download is cut off after one complete pair; http sources with one directory per site and the same file names in each.",
+    "C12": "Also: allow=/deny=/auth= options arriving from service tags through the real Consul backend incl. values with unexpanded $variables (route stays closed); update-loop histories.",
+    "C13": "Also: registrations without a port that only carry redirect tags; Consul KV outage with an operator's redirect route in force.",
+    "C15": "Also: listener lists written with blanks around the separators (every accepted listener address can be bound as it stands); a properties file from a URL whose download breaks off mid-body must not be accepted.",
+    "C16": "Also: the pipeline histories incl. in-place re-registrations; two gRPC listeners (grpc and grpcs, either order) started by startServers with a plain and a TLS backend.",
+    "C17": "Also: the upstream's own Vary / Cache-Control survive; an upstream that dies mid-body (compressed or not) never yields a complete response; going-away clients hit compressed responses; the recorder reports headers as committed.",
+    "C18": "Also: real SIGTERM/SIGINT (optionally after SIGHUP) to a process with 1-4 exit handlers one of which is main.go's drain: every handler runs once, exit.Wait returns within the wait, the listener refuses afterwards.",
+    "C19": "Also: a header in time followed by a body that streams 2.5-3.5 times the limit is delivered completely; limits given through the environment next to unusable neighbour settings (Load refuses, or keeps the limits).",
+    "C20": "Also: $request_url / $request_scheme on routes that replace the Host header and with client-sent X-Forwarded-Proto / Forwarded; a websocket upgrade whose upstream refuses or closes yields exactly one line.",
+}
+for _k, _v in _ROUND6.items():
     PROPS[_k]["rule"] += " " + _v
